@@ -301,6 +301,86 @@ def w_ed448():
     return w
 
 
+# ---------------------------------------------------------------------------------------------------- RSA key field
+def rsa_key_layout_unit():
+    """RFC 3110 2: exponent length in ONE octet if it is 1..255, otherwise a zero octet followed by the length in two octets;
+    then the exponent, then the modulus. The real _compose_public_key_rsa runs on a stub key with a symbolic exponent and
+    modulus; compose_mpint (a fixed-length big-endian integer, C11's subject) enters by the contract 'appends FX(value, length),
+    a byte string of that length'"""
+    def thunk():
+        from cryptoparser.common.parse import ComposerBinary
+        from spec.wire import cat, u8, u16
+        P = E.cur()
+        e, m, ks = z3.Int('public_exponent'), z3.Int('modulus'), z3.Int('key_size')
+        P.assume(z3.And(e >= 1, m >= 1, ks >= 8))
+        P.inputs.update(public_exponent=SInt(e), modulus=SInt(m), key_size=SInt(ks))
+
+        class _Stub(object):
+            pass
+        key = SObj(_Stub, dict(params=SObj(_Stub, dict(public_exponent=SInt(e), modulus=SInt(m))), key_size=SInt(ks)))
+        memo = []
+
+        def FX(value, length):
+            v, ln = ops.as_int(value), ops.as_int(length)
+            for v0, l0, s0 in memo:
+                if P.entails(z3.And(v0 == v, l0 == ln)):
+                    return s0
+            s, facts = V.base_seq('fixed_int', 'bytes')
+            for f in facts:
+                P.assume(f)
+            P.assume(s.n == ln)
+            memo.append((v, ln, s))
+            return s
+
+        def spec_compose_mpint(self, value, length):
+            if P.branch(ops.as_int(length) < 0):
+                raise I.Decline()
+            self.f['_composed'] = V.concat(ops.as_seq(self.f['_composed']), FX(value, length), 'bytearray')
+            return None
+        I.CONTRACTS[ComposerBinary.compose_mpint] = spec_compose_mpint
+        try:
+            c = I.construct(ComposerBinary, [], {})
+            out = vc.outcome_of(lambda: I.call(DnsRecordDnskey._compose_public_key_rsa, [c, key], {}))
+        finally:
+            I.CONTRACTS.pop(ComposerBinary.compose_mpint, None)
+        if out.kind != 'ret':
+            e1.record_path_fact(P, 'RSA key field: compose refuses only with the library errors (raised %s)' % out.value.cls.__name__,
+                                issubclass(out.value.cls, e1.FOUR))
+            return
+        wire = ops.as_seq(c.f['_composed']).copy('bytes')
+        # the exponent length is the length the code hands to compose_mpint for the exponent (its value, the minimal
+        # number of octets of e, comes from int.bit_length: a library fact, not re-derived here)
+        el = next((l0 for v0, l0, s0 in memo if P.entails(v0 == e)), None)
+        if el is None:
+            e1.record_path_fact(P, 'RSA key field: the exponent is written with compose_mpint', False)
+            return
+        P.oblige('RSA key field: the exponent is written with at least one octet', el >= 1)
+        if P.branch(el <= 255):
+            prefix = cat(u8(el))
+        else:
+            prefix = cat(u8(0), u16(el))
+        vc.oblige_equal(P, 'RSA key field: exponent length (1 octet for 1..255, else 0 + 2 octets), exponent, modulus (RFC 3110 2)',
+                        wire, cat(prefix, FX(SInt(e), SInt(el)), FX(SInt(m), SInt(ks / 8))))
+
+    def native(seed=0, hints=()):
+        from cryptodatahub.common.key import PublicKey, PublicKeyParamsRsa
+        for ebytes in (1, 3, 254, 255, 256, 257):
+            e = (1 << (8 * ebytes - 1)) | 1
+            n = (1 << 1023) | 1
+            try:
+                k = _rsa_dnskey(e, n)
+                rdata = bytes(k.compose())[4:]
+            except Exception:
+                continue
+            want = (bytes([ebytes]) if ebytes <= 255 else b'\x00' + ebytes.to_bytes(2, 'big')) + e.to_bytes(ebytes, 'big') + n.to_bytes(128, 'big')
+            if rdata != want:
+                return dict(reproduced=True, call='DNSKEY with an RSA exponent of %d octets, key field of compose()' % ebytes,
+                            expected=want[:6].hex() + '...', observed=rdata[:6].hex() + '...', key='rsa exponent length')
+        return dict(reproduced=False)
+    return Unit('K6-key/RSA (RFC 3110)', lambda: (e1.setup(), vc.run_unit('rsa-key', thunk, max_paths=200))[1], replay=lambda inputs: native(0),
+                search=native, clause='K6 key material', functions=['DnsRecordDnskey._compose_public_key_rsa'])
+
+
 # ---------------------------------------------------------------------------------------------------- DNSKEY header
 def dnskey_header_unit():
     def thunk():
@@ -358,10 +438,11 @@ def units(tier, seed):
     ed448_known = listed(KF_ED448)
     out.append(Unit('parse_key/key-field-length', parse_key_unit(ed448_known), replay=parse_key_replay(ed448_known),
                     search=parse_key_search(ed448_known), clause='key field length', functions=['DnsRecordDnskey.parse_key']))
+    out.append(rsa_key_layout_unit())
     out.append(Unit('K6-header/dnsrec.record.DnsRecordDnskey', dnskey_header_unit(), clause='K6',
                     functions=['DnsRecordDnskey.compose', 'spec.dnskey']))
     UNCOVERED[:] = [
-        'DNSKEY public key material values (RFC 3110 RSA, RFC 2536 DSA, RFC 6605 ECDSA, RFC 8080 EdDSA: which octets become which key parameter; compose_key): the key objects are cryptodatahub PublicKey values outside the interpreter; only the LENGTH of the accepted key field per algorithm is under contract (parse_key unit)',
+        'DNSKEY public key material values (RFC 3110 RSA, RFC 2536 DSA, RFC 6605 ECDSA, RFC 8080 EdDSA: which octets become which key parameter; compose_key): the key objects are cryptodatahub PublicKey values outside the interpreter; only the LENGTH of the accepted key field per algorithm (parse_key unit) and the RSA layout of compose_key (exponent length prefix, exponent, modulus) are under contract',
         'names whose labels are not in IDNA normal form (ToUnicode(ToASCII(label)) == label is assumed for the labels of the symbolic objects); DnsNameUncompressed.convert (text with dots -> labels) is not under contract',
         'TXT data longer than 255 octets (the composer emits a single character-string and rejects longer text)',
     ]
